@@ -370,26 +370,91 @@ pub fn run_history_kind<S: Service, K: Kind>(config: &iceoryx2::config::Config, 
         [(8, 0), (5, 1), (10, 2), (5, 3), (28, 4), (5, 5), (4, 6), (2, 7), (22, 8), (7, 9), (2, 10), (2, 11)]
     };
     let total: u32 = wts.iter().map(|x| x.0).sum();
-    for _ in 0..opts.steps {
-        let mut r = rng.below(total as u64) as u32;
+    // Scripted prefix ("expired connections gadget", one history in four with three publisher slots): three
+    // publishers deliver to one subscriber that holds samples of all of them, the publishers leave one by one,
+    // then the samples of the second and third are released before the next receive, so that two expired
+    // connections become cleanable inside ONE receive call while the first is still stuck on its borrows.
+    // Codes 90+slot = release every held sample of that publisher slot. The random history continues afterwards.
+    let mut forced: VecDeque<(u8, usize)> = VecDeque::new();
+    if cfg.max_pubs >= 3 && rng.chance(1, 4) {
+        forced.push_back((2, 0));
+        for i in 0..3 {
+            forced.push_back((0, i));
+        }
+        for _ in 0..cfg.borrow + 1 {
+            forced.push_back((4, 0));
+        }
+        forced.push_back((4, 1));
+        forced.push_back((4, 2));
+        for _ in 0..cfg.borrow + 3 {
+            forced.push_back((8, 0));
+        }
+        for i in 0..3 {
+            forced.push_back((1, i));
+            forced.push_back((11, 0));
+        }
+        forced.push_back((91, 0));
+        forced.push_back((92, 0));
+        forced.push_back((8, 0));
+        forced.push_back((90, 0));
+        for _ in 0..3 {
+            forced.push_back((8, 0));
+        }
+        *events.entry("expired_connections_gadget").or_default() += 1;
+    }
+    let mut slot_uid: Vec<u64> = vec![0; cfg.max_pubs];
+    let mut steps_left = opts.steps;
+    while steps_left > 0 || !forced.is_empty() {
+        let mut force: Option<usize> = None;
+        macro_rules! pick {
+            ($n:expr) => {
+                match force.take() {
+                    Some(x) => x % ($n).max(1),
+                    None => rng.below(($n) as u64) as usize,
+                }
+            };
+        }
         let mut op = 0u8;
-        for (wt, o) in wts.iter() {
-            if r < *wt {
-                op = *o;
-                break;
+        if let Some((o, ix)) = forced.pop_front() {
+            if o >= 90 {
+                // release all held samples that came from the publisher that lived in slot o-90
+                let uid = slot_uid[(o - 90) as usize % cfg.max_pubs];
+                let n = w.held.iter().filter(|h| h.pub_uid == uid).count();
+                if n == 0 {
+                    continue;
+                }
+                let k = w.held.iter().position(|h| h.pub_uid == uid).unwrap();
+                if n > 1 {
+                    forced.push_front((o, 0));
+                }
+                op = 9;
+                force = Some(k);
+            } else {
+                op = o;
+                force = Some(ix);
             }
-            r -= *wt;
+        } else {
+            steps_left -= 1;
+            let mut r = rng.below(total as u64) as u32;
+            for (wt, o) in wts.iter() {
+                if r < *wt {
+                    op = *o;
+                    break;
+                }
+                r -= *wt;
+            }
         }
         match op {
             0 => {
                 // create publisher
-                let i = rng.below(cfg.max_pubs as u64) as usize;
+                let i = pick!(cfg.max_pubs);
                 if w.pubs[i].is_none() {
                     match K::publisher(&svc, Some(cfg.loans), cfg.fail_on_full) {
                         Ok(p) => {
                             let uid = w.next_uid;
                             w.next_uid += 1;
                             w.pubs[i] = Some((p, PubM { uid, seq: 0, history: VecDeque::new(), connected: Vec::new() }, Vec::new()));
+                            slot_uid[i] = uid;
                             w.trace.push(format!("CreatePub{i}(u{uid})"));
                             w.pub_update(i);
                             ev!("create_pub");
@@ -406,7 +471,7 @@ pub fn run_history_kind<S: Service, K: Kind>(config: &iceoryx2::config::Config, 
                 }
             }
             1 => {
-                let i = rng.below(cfg.max_pubs as u64) as usize;
+                let i = pick!(cfg.max_pubs);
                 if let Some((p, pm, loans)) = w.pubs[i].take() {
                     w.trace.push(format!("DropPub{i}(u{})", pm.uid));
                     drop(loans);
@@ -425,10 +490,11 @@ pub fn run_history_kind<S: Service, K: Kind>(config: &iceoryx2::config::Config, 
                 }
             }
             2 => {
-                let j = rng.below(cfg.max_subs as u64) as usize;
+                let scripted = force.is_some();
+                let j = pick!(cfg.max_subs);
                 if w.subs[j].is_none() {
-                    let buf = rng.range(1, cfg.buf_max as u64) as usize;
-                    let hreq = rng.below((cfg.hist.min(buf) + 1) as u64) as usize;
+                    let buf = if scripted { cfg.buf_max } else { rng.range(1, cfg.buf_max as u64) as usize };
+                    let hreq = if scripted { 0 } else { rng.below((cfg.hist.min(buf) + 1) as u64) as usize };
                     match K::subscriber(&svc, Some((buf, hreq))) {
                         Ok(s) => {
                             let uid = w.next_uid;
@@ -452,7 +518,7 @@ pub fn run_history_kind<S: Service, K: Kind>(config: &iceoryx2::config::Config, 
                 }
             }
             3 => {
-                let j = rng.below(cfg.max_subs as u64) as usize;
+                let j = pick!(cfg.max_subs);
                 if w.subs[j].is_some() {
                     let uid = w.subs[j].as_ref().unwrap().1.uid;
                     let keep = opts.keep_held_past_subscriber && rng.chance(1, 2);
@@ -472,7 +538,7 @@ pub fn run_history_kind<S: Service, K: Kind>(config: &iceoryx2::config::Config, 
             }
             4 | 6 => {
                 // send_copy (4) or send a previously loaned sample (6)
-                let i = rng.below(cfg.max_pubs as u64) as usize;
+                let i = pick!(cfg.max_pubs);
                 if w.pubs[i].is_none() {
                     continue;
                 }
@@ -542,7 +608,7 @@ pub fn run_history_kind<S: Service, K: Kind>(config: &iceoryx2::config::Config, 
             }
             5 => {
                 // loan and keep
-                let i = rng.below(cfg.max_pubs as u64) as usize;
+                let i = pick!(cfg.max_pubs);
                 if w.pubs[i].is_none() {
                     continue;
                 }
@@ -575,7 +641,7 @@ pub fn run_history_kind<S: Service, K: Kind>(config: &iceoryx2::config::Config, 
             }
             7 => {
                 // drop an unsent loan
-                let i = rng.below(cfg.max_pubs as u64) as usize;
+                let i = pick!(cfg.max_pubs);
                 if let Some((_, _, loans)) = w.pubs[i].as_mut() {
                     if !loans.is_empty() {
                         let k = rng.below(loans.len() as u64) as usize;
@@ -590,7 +656,7 @@ pub fn run_history_kind<S: Service, K: Kind>(config: &iceoryx2::config::Config, 
                 }
             }
             8 => {
-                let j = rng.below(cfg.max_subs as u64) as usize;
+                let j = pick!(cfg.max_subs);
                 if w.subs[j].is_none() {
                     continue;
                 }
@@ -641,7 +707,7 @@ pub fn run_history_kind<S: Service, K: Kind>(config: &iceoryx2::config::Config, 
             }
             9 => {
                 if !w.held.is_empty() {
-                    let k = rng.below(w.held.len() as u64) as usize;
+                    let k = pick!(w.held.len());
                     let h = w.held.remove(k);
                     if K::check(K::sp(&h.sample)) != Some(h.id) {
                         fail!(if h.orphan { "sample_outliving_subscriber_changed" } else { "held_sample_changed" }, "held sample #{:x} changed: {:?}", h.id, K::sp(&h.sample));
@@ -659,7 +725,7 @@ pub fn run_history_kind<S: Service, K: Kind>(config: &iceoryx2::config::Config, 
                 }
             }
             10 => {
-                let i = rng.below(cfg.max_pubs as u64) as usize;
+                let i = pick!(cfg.max_pubs);
                 if w.pubs[i].is_some() {
                     if let Err(e) = K::update(&w.pubs[i].as_ref().unwrap().0) {
                         fail!("update_connections_failed", "{:?}", e);
@@ -670,7 +736,7 @@ pub fn run_history_kind<S: Service, K: Kind>(config: &iceoryx2::config::Config, 
                 }
             }
             _ => {
-                let j = rng.below(cfg.max_subs as u64) as usize;
+                let j = pick!(cfg.max_subs);
                 if w.subs[j].is_some() {
                     w.sub_update(j);
                     let r = K::has_samples(&w.subs[j].as_ref().unwrap().0);
